@@ -181,7 +181,7 @@ func c07Same(a, b []c07Event) (bool, string) {
 }
 
 func c07XProto(c *lab.Ctx) {
-	c.Rule("per codec: streams of 1..6 generated frames through the real stream connection's Dispatch; chunkings: whole, every single cut (stream<=600B), every cut pair (<=120B), byte-wise, random k-cuts; distinct = (codec, side, #frames, chunking kind, cut offsets relative to frame boundaries hashed)")
+	c.Rule("per codec: streams of 1..6 (one in six: 7..120, incl. 15..17, 31..33, 64, 100) generated frames through the real stream connection's Dispatch; chunkings: whole, every single cut (stream<=600B), every cut pair (<=120B), byte-wise, random k-cuts; distinct = (codec, side, #frames, chunking kind, cut offsets relative to frame boundaries hashed)")
 	registerCodecs()
 	rng := c.Rand("xproto")
 	nStreams := c.Pick(50, 400)
@@ -197,6 +197,11 @@ func c07XProto(c *lab.Ctx) {
 			clientSide := srng.Chance(1, 3)
 			nf := 1 + srng.Intn(6)
 			small := srng.Chance(3, 4)
+			if srng.Chance(1, 6) {
+				// long bursts: many complete frames in one read
+				nf = srng.PickInt(15, 16, 17, 31, 32, 33, 64, 100, 7+srng.Intn(114))
+				small = true
+			}
 			var sb []byte
 			var ends []int
 			var want []c07Event
